@@ -663,7 +663,11 @@ def _text_mutations(rng, text):
         out.append(("cut", "\n".join(lines[:k]) + "\n"))
         k = rng.randint(1, len(lines) - 2)
         out.append(("cut-noeol", "\n".join(lines[:k])))
-        k = rng.randint(1, len(lines) - 2)
+        # an empty line where the reader expects a title line is taken for the end of the file
+        # (anywhere else it turns the rest of the file into garbage, which is not the point here)
+        import re as _re0
+        ks = [i for i, ln in enumerate(lines) if i > 0 and _re0.match(r"^[ \-0-9]{32}.{8}\S", ln)] + [len(lines) - 1]
+        k = rng.choice(ks)
         out.append(("blank-line", "\n".join(lines[:k] + [""] + lines[k:])))
     out.append(("lower", text.lower()))
     import re as _re
